@@ -403,6 +403,7 @@ func runC13(c *Ctx) error {
 			arrAns[i] = wk.Call("xmparr " + strings.TrimPrefix(jobs[i].req, "xmpimpl "))
 		}
 	})
+	wsInsideTags(c)
 	for i, j := range jobs {
 		if j.arrays != "" && !j.long && strings.HasPrefix(arrAns[i], "nil ") {
 			c.Stat("arrays.compared")
@@ -469,4 +470,36 @@ func arrayDiff(a, b string) string {
 
 func fullXMP(x xmp.XMP) string {
 	return strings.ReplaceAll(strings.ReplaceAll(fmt.Sprintf("%+v", x), " ", "_"), "\n", "\\n")
+}
+
+
+// wsInsideTags: white space (and a comment) at the places inside or between tags where the serialisers of the generator
+// never put it: before '>' and "/>", around '=', and an XML comment between two elements. Each packet carries
+// tiff:Make = "Canon" and tiff:Model = "EOS"; every deviation is reported under a class of its own (see known_findings).
+func wsInsideTags(c *Ctx) {
+	pre := `<x:xmpmeta xmlns:x="adobe:ns:meta/"><rdf:RDF xmlns:rdf="http://www.w3.org/1999/02/22-rdf-syntax-ns#">`
+	post := `</rdf:RDF></x:xmpmeta>`
+	cases := [][2]string{
+		{"ws-in-tag:before-gt", `<rdf:Description rdf:about="" tiff:Make="Canon" ><tiff:Model>EOS</tiff:Model></rdf:Description>`},
+		{"ws-in-tag:elem-start", `<rdf:Description rdf:about=""><tiff:Make >Canon</tiff:Make><tiff:Model>EOS</tiff:Model></rdf:Description>`},
+		{"ws-in-tag:elem-end", `<rdf:Description rdf:about=""><tiff:Make>Canon</tiff:Make ><tiff:Model>EOS</tiff:Model></rdf:Description>`},
+		{"ws-in-tag:before-solo-close", `<rdf:Description rdf:about="" tiff:Make="Canon" tiff:Model="EOS" />`},
+		{"ws-in-tag:around-eq", `<rdf:Description rdf:about="" tiff:Make = "Canon" tiff:Model="EOS"/>`},
+		{"comment-between-elements", `<rdf:Description rdf:about=""><tiff:Make>Canon</tiff:Make><!-- c --><tiff:Model>EOS</tiff:Model></rdf:Description>`},
+		{"two-descriptions", `<rdf:Description rdf:about="" tiff:Make="Canon"/><rdf:Description rdf:about="" tiff:Model="EOS"/>`},
+	}
+	for _, cs := range cases {
+		doc := pre + cs[1] + post
+		var x xmp.XMP
+		var err error
+		p, fr, _ := safely(func() { x, err = xmp.ParseXmp(bytes.NewReader([]byte(doc))) })
+		c.Count("wsInsideTags "+cs[0], true)
+		c.Stat("crafted." + cs[0])
+		got := fmt.Sprintf("err=%s make=%q model=%q", xmpErr(err), x.Tiff.Make, x.Tiff.Model)
+		if p {
+			c.Violate(Case{Entry: "xmp.ParseXmp", Input: doc, Expected: "returns", Actual: "panic", Kind: "panic", Frame: fr, Class: cs[0]})
+		} else if want := `err=nil make="Canon" model="EOS"`; got != want {
+			c.Violate(Case{Entry: "xmp.ParseXmp", Input: doc, Expected: want, Actual: got, Kind: "wrong-value", Class: cs[0]})
+		}
+	}
 }
